@@ -34,6 +34,60 @@ type Gen struct {
 	typeIDs   map[string]int
 	ghost     map[string]string // ghost field -> value sort
 	specFiles []string
+	renames   map[*funcInfo]map[string][]string // pure renames of locals/parameters since the lock was taken: old name -> current names
+}
+
+// localsTable lists, in source order, every variable declared in the function (receiver, parameters, results, locals,
+// including those of function literals) as "name:type". Recorded in the lock file on the unchanged tree; if the current
+// table differs from the recorded one only in names (same length, same types position by position) the edit was a pure
+// rename, and contract clauses that still use the old names are rebound to the new ones instead of raising an alarm.
+func localsTable(fi *funcInfo) []string {
+	info := fi.pkg.TypesInfo
+	qual := func(p *types.Package) string { return p.Name() }
+	var out []string
+	ast.Inspect(fi.decl, func(n ast.Node) bool {
+		id, ok := n.(*ast.Ident)
+		if !ok || id.Name == "_" {
+			return true
+		}
+		if v, ok := info.Defs[id].(*types.Var); ok && !v.IsField() {
+			out = append(out, id.Name+":"+types.TypeString(v.Type(), qual))
+		}
+		return true
+	})
+	return out
+}
+
+// renameMap compares a recorded locals table with the current one; nil unless the difference is a pure rename.
+func renameMap(old, cur []string) map[string][]string {
+	if len(old) != len(cur) {
+		return nil
+	}
+	curNames := map[string]bool{}
+	for _, c := range cur {
+		curNames[c[:strings.Index(c, ":")]] = true
+	}
+	m := map[string][]string{}
+	for i := range old {
+		oi, ci := strings.Index(old[i], ":"), strings.Index(cur[i], ":")
+		if old[i][oi:] != cur[i][ci:] {
+			return nil
+		}
+		on, cn := old[i][:oi], cur[i][:ci]
+		if on != cn {
+			dup := false
+			for _, x := range m[on] {
+				dup = dup || x == cn
+			}
+			if !dup {
+				m[on] = append(m[on], cn)
+			}
+		}
+	}
+	if len(m) == 0 {
+		return nil
+	}
+	return m
 }
 
 const modPath = "github.com/libp2p/go-libp2p"
